@@ -8,7 +8,7 @@ def main():
     tier = 'quick'
     if '--tier' in args:
         i = args.index('--tier'); tier = args[i + 1]; del args[i:i + 2]
-    patch, props = args[0], args[1:]
+    patch, props = args[0], args[1:] or [f'C{i:02d}' for i in range(1, 21)]
     d = tempfile.mkdtemp(prefix='hplsa_mut_')
     try:
         dst = os.path.join(d, 'repo')
